@@ -22,7 +22,14 @@ DEEP = [("3000 nested parentheses", "(" * 3000 + "a" + ")" * 3000), ("3000 chain
         ("a 100000 character word", "w" * 100000), ("3000 unclosed groups", "(a " * 3000),
         # beyond the largest exponent of the decimal context
         ("a 1000001 digit boost", "a^" + "9" * 1000001), ("a 1000001 digit fuzziness", "a~" + "9" * 1000001), ("a 1000001 digit proximity", '"a b"~' + "1" * 1000001),
-        ("a field group with a 1000001 digit boost", "f:(a b)^" + "9" * 1000001)]
+        ("a field group with a 1000001 digit boost", "f:(a b)^" + "9" * 1000001),
+        # texts that libraries behind the parser may choke on: regex bodies that Python's re refuses, a backslash before a line break inside
+        # quotes / slashes, format directives, lone surrogates, NUL
+        ("regex body with an open class", "/[a/"), ("regex body with an open group", "f:/a(b/"), ("regex body starting with a star", "/*a/"),
+        ("regex body with a bad repeat", "name:(/ab{2,1}c/ AND foo)"), ("regex body with a bad escape", "/\\p{x}(?P<n>/"),
+        ("phrase with a backslash before a line break", "\"foo\\\nbar\""), ("regex with a backslash before a line break", "/ab+\\\nc/"),
+        ("range bound with a backslash before a line break", "f:[a TO \"z\\\n\"]"), ("format directives", "%s %(x)s {0} {x} {} %d"),
+        ("format directives in a phrase and a field", "{f}:\"%s {0}\"^2 {"), ("NUL and a lone surrogate", "a\x00b \ud800 c"), ("malformed numerals", "foo~1.2.3 \"a b\"~1.5 c^. f:(x y)^2^1..5")]
 
 
 def dump(t):
@@ -106,7 +113,7 @@ def main():
     emit({"ok": not rest, "evaluations": evaluations, "distinct_nontrivial": len(items),
           "rule": "all sequences of 1..%d parse calls over a pool of %d inputs (valid, invalid, illegal characters, "
                   "malformed numerals, unbalanced delimiters) x all assignments of the two entry points; distinct = "
-                  "distinct (entry-point, input) sequences; every outcome compared with a fresh-interpreter run; + %d deep / long inputs (thousands of nested or chained constructs) that must give a tree or a ParseError" % (N, len(POOL), len(DEEP)),
+                  "distinct (entry-point, input) sequences; every outcome compared with a fresh-interpreter run; + %d deep / long / library-hostile inputs (thousands of nested or chained constructs, million-digit numerals, regex bodies re refuses, ...) that must give a tree or a ParseError" % (N, len(POOL), len(DEEP)),
           "bound": "sequence length <= %d, pool of %d inputs" % (N, len(POOL)),
           "samples": [{"sequence": ["a AND", " a  OR b "], "entries": ["parser", "thread"]}],
           "failures": rest[:30], "known": hit})
